@@ -139,7 +139,7 @@ def gen_history(rng, prof, tree, inst_ids):
             m = rng.below(N_METHODS)
         a = rng.below(dom)
         i = rng.choice(inst_ids)
-        evs.append(scn.call(i, m, a, t=0))
+        evs.append(scn.call(i, m, a, t=rng.below(prof.threads) if prof.threads > 1 else 0))
     return evs
 
 def gen_scenario(rng, prof, name):
